@@ -198,4 +198,41 @@ theorem bytesLoop_spells (ro : RealOps R) (env : Env R) (hd : env.decrypt = none
           bytesStr_strBytes, hnbi, hst]
       simp [bytesLoop, hstep, parseLoop, hst]
 
+
+theorem regular_ne_40_60 : ∀ b : UInt8, PdfLex.isRegular b = true → b ≠ 40 ∧ b ≠ 60 := by decide +kernel
+
+/-- the driver's oracle has the two properties the theorems use -/
+theorem lexOracle_facts (img : Buf → Nat → Out (Option Nat × Nat)) : EofFacts (lexOracle img) where
+  end_is_eof := by
+    intro buf pos h
+    simp [lexOracle, h]
+  keyword_not_eof := by
+    intro buf pos w h hk
+    simp only [kwOK, Bool.and_eq_true, Bool.not_eq_true', List.all_eq_true, List.isEmpty_eq_false_iff] at hk
+    obtain ⟨hne, hreg⟩ := hk.1.1.1.1.1.1.1.1
+    simp only [lexOracle, h]
+    generalize PdfLex.slice buf w.1 w.2 = t at *
+    cases t with
+    | nil => exact absurd rfl hne
+    | cons b t' =>
+      obtain ⟨h40, h60⟩ := regular_ne_40_60 b (hreg b (by simp))
+      have c1 : ((b :: t') == [40]) = false := by
+        simp only [beq_eq_false_iff_ne, ne_eq, List.cons.injEq, not_and]; intro e; exact absurd e h40
+      have c2 : ((b :: t') == [60]) = false := by
+        simp only [beq_eq_false_iff_ne, ne_eq, List.cons.injEq, not_and]; intro e; exact absurd e h60
+      simp [c1, c2]
+
+theorem spellsToks_length {pr : List UInt8 → Option R} {toks : List (Tok R)} {txt : List UInt8}
+    (h : SpellsToks pr toks txt) : toks.length ≤ txt.length := by
+  induction h with
+  | nil g _ => simp
+  | prim g p txt rest toks hg hsp hb ht ih =>
+    have := PdfLex.spells_ne_nil pr (toLex p) txt hsp
+    have : 0 < txt.length := List.length_pos_iff.mpr this
+    simp; omega
+  | kw g s rest toks hg hk hb ht ih =>
+    simp only [kwOK, Bool.and_eq_true, Bool.not_eq_true', List.isEmpty_eq_false_iff] at hk
+    have : 0 < (strBytes s).length := List.length_pos_iff.mpr hk.1.1.1.1.1.1.1.1.1
+    simp; omega
+
 end ContentBytes
